@@ -1188,6 +1188,10 @@ class Tensor:
                     or (op_out is parent_data)
                 ):
                     if parent_var._base is not None and parent_var._creator is None:
+                        if parent_var.grad is None:
+                            # its gradient was invalidated through its base; don't
+                            # let the stale value reappear once the base is dropped
+                            parent_var._grad = None
                         parent_var._base = None
 
                     base = parent_var if parent_var.base is None else parent_var.base
@@ -1223,6 +1227,8 @@ class Tensor:
             if isinstance(v, Tensor):
                 # tensor's graph has been cleared, but its base lingers
                 if v._base is not None and v._creator is None:
+                    if v.grad is None:
+                        v._grad = None
                     v._base = None
 
                 if base is None:
